@@ -3,6 +3,7 @@
 package fanin
 
 import (
+	"fmt"
 	"context"
 	"errors"
 	"sync"
@@ -48,7 +49,8 @@ type fiPub struct {
 	mu       sync.Mutex
 	calls    []fiCall
 	failFirst bool
-	consumed *message.Message
+	aborted   bool
+	consumed  *message.Message
 }
 
 func (p *fiPub) Publish(topic string, msgs ...*message.Message) error {
@@ -62,6 +64,9 @@ func (p *fiPub) Publish(topic string, msgs ...*message.Message) error {
 	}
 	p.calls = append(p.calls, fiCall{topic, append([]*message.Message(nil), msgs...), st})
 	if p.failFirst && len(p.calls) == 1 {
+		if p.aborted {
+			return fmt.Errorf("publish aborted: %w", context.Canceled) // what a context-aware publisher reports
+		}
 		return errScripted
 	}
 	return nil
@@ -74,7 +79,7 @@ func HarnessC17FanIn() {
 	msg := message.NewMessage("u1", message.Payload("p1"))
 	msg.Metadata.Set("k", "v")
 	sub := &fiSub{chans: map[string]chan *message.Message{}}
-	pub := &fiPub{failFirst: vrt.Bool("dest.fails"), consumed: msg}
+	pub := &fiPub{failFirst: vrt.Bool("dest.fails"), aborted: vrt.Bool("dest.error.is.context.canceled"), consumed: msg}
 	fi, err := NewFanIn(sub, pub, Config{SourceTopics: []string{"src"}, TargetTopic: "target"}, watermill.NopLogger{})
 	vrt.Assert(err == nil, "fan-in created")
 	ctx, cancel := context.WithCancel(context.Background())
